@@ -358,6 +358,22 @@ def run(ctx):
             C19_drop.check(ctx, tier)
         except (Inconclusive, Unmodelled) as e:
             ctx.inconclusive.append('C19 drop slice: %s: %s' % (type(e).__name__, str(e)[:300]))
+        # engine M: the configured frame limit reaches the sessions the node server opens (both ways of opening a connection) + native end-to-end observation
+        import C19_limit
+        try:
+            C19_limit.check(ctx, cluster.load()[0])
+            res = C19_limit.run_native()
+            ctx.translator_validated += len(res)
+            ctx.extra['limit_native'] = res
+            badl = [r for r in res if r['violated']]
+            if badl:
+                rec = {'name': 'limit.native_battery', 'group': 'C19.limit', 'solver_s': 0.0, 'status': 'cex'}
+                ctx.obligations.append(rec)
+                ctx.handle_cex(rec['name'], 'C19.limit.native', None, lambda _m: {'replayed': True, 'detail': 'real node with a small frame limit, external transport: %s' % badl, 'replay': {'which': 'limit'}}, rec)
+        except (Inconclusive, Unmodelled) as e:
+            ctx.inconclusive.append('C19 limit slice: %s: %s' % (type(e).__name__, str(e)[:300]))
+        except RuntimeError as e:
+            ctx.inconclusive.append('C19 limit native scenario unavailable: %s' % str(e)[-300:])
         # engine M: job metadata of serialized factory messages
         import C19_jobmeta
         try:
@@ -413,6 +429,11 @@ def replay_file(path):
             bad, _n = C19_derive_replay.battery()
         print('native generated decoder / encoder:', bad)
         return 1 if bad else 0
+    if rp.get('which') == 'limit' or rp.get('scenario') == 'frame_limit':
+        import C19_limit
+        r = C19_limit.replay()
+        print(r['detail'])
+        return 1 if r['replayed'] else 0
     if rp.get('which') == 'drop':
         import C19_drop_replay
         r = C19_drop_replay.replay(rp['decoder'], rp.get('runtime'))
